@@ -150,8 +150,29 @@ def worker(sh):
                 mask = (1 << l) - 1 if sig else rng.getrandbits(l) if l else 0
             lines.append('gen %d %d %d %d' % (l, sig, mask, rng.getrandbits(40)))
             meta.append((l, sig, mask))
+    if sh.index == 1:
+        # free slots with indices >= 256 (needs l > 256): every slot from 64 upwards stays free
+        lines.append('gen 300 1 %d %d 1' % (rng.getrandbits(64), rng.getrandbits(40)))
+        meta.append((300, 1, None))
     outs = sh.run('prod', lines)
     outs_san = sh.run('san', lines)
+    # a single free slot with an arbitrary 32-bit index (byte order and width of the index field)
+    idxs = [0, 1, 255, 256, 257, 0xffff, 0x10000, 0x01020304, 0x80000000, 0xffffffff] if sh.index == 0 else []
+    idxs += [rng.getrandbits(32) for _ in range(sh.pick(4, 40))] + [rng.getrandbits(rng.randrange(1, 33)) for _ in range(sh.pick(4, 40))]
+    sl = ['slot %d %d' % (ix, c) for ix in idxs for c in (0, 1)]
+    for cfg in ('prod', 'san'):
+        so = sh.run(cfg, sl)
+        if cfg != 'prod':
+            continue
+        for line, out in zip(sl, so):
+            if out is None:
+                continue
+            ix = int(line.split(' ')[1])
+            kv = {t.split('=')[0]: t.split('=')[1] for t in out if '=' in t}
+            tail = out[-1]
+            if kv.get('ok') != '1' or int(kv.get('idx_back', -1)) != ix or tail != ix.to_bytes(4, 'big').hex():
+                sh.violation('marshal:wsk:slot-index', 'free-slot index %d (0x%x) does not survive marshalling as four big-endian bytes: %s' % (ix, ix, ' '.join(out)), {'line': line})
+            sh.event('slot-index', 'bits%d' % min(32, (ix.bit_length() + 7) // 8 * 8))
     for i, (a, b) in enumerate(zip(outs, outs_san)):
         if a is not None and b is not None and a != b:
             sh.violation('diff:prod-vs-san:gen', 'configurations disagree on %s' % lines[i], {'line': lines[i]})
@@ -160,12 +181,16 @@ def worker(sh):
         if out is None:
             continue
         recs = parse_gen(' '.join(out))
-        nfree = bin(mask).count('1')
+        nfree = bin(mask).count('1') if mask is not None else None
         if len(recs) != 20:
             sh.violation('malformed:gen', 'expected 20 records, got %d for %s' % (len(recs), line), {'line': line})
             continue
         for d in recs:
             kind, c = d['kind'], int(d['c'])
+            if nfree is None:
+                nfree = int(d['slots']) if kind == 'wsk' else 0
+                if kind == 'wsk' and nfree < 300 - 64:
+                    sh.violation('marshal:wsk:high-slots', 'key with all slots >= 64 free lists only %d free slots' % nfree, {'line': line})
             ident = '%s/%s l=%d sig=%d free=%d' % (kind, 'compressed' if c else 'uncompressed', l, sig, nfree)
 
             def fail(aspect, msg):
@@ -176,7 +201,7 @@ def worker(sh):
             if d['allwritten'] != '1':
                 fail('bytes-written', 'marshal did not write every byte of the reported length (or depends on prior buffer content)')
             if kind in ('wparams', 'wsk'):
-                exp_slots = l if kind == 'wparams' else nfree
+                exp_slots = l if kind == 'wparams' else (nfree if mask is not None else int(d['slots']))
                 if int(d['setlen']) != exp_slots or int(d['slots']) != exp_slots:
                     fail('recovered-length', 'set_length/unmarshalled_length gave %s, object has %s slots (expected %d)' % (d['setlen'], d['slots'], exp_slots))
             for f, what in (('checked', 'validating unmarshal rejected the library\'s own bytes'), ('equal', 'unmarshalled object differs'), ('resame', 're-marshalling differs'),
@@ -239,7 +264,7 @@ def run(ctx):
                 'wrong form, garbage) and validating unmarshal must reject; class = (object kind, encoding, l, sig, free slots) / (kind, corruption)')
     ctx.extra['configs'] = ['prod', 'san']
     ctx.assumptions = ['library group equality used to compare objects', 'oracle/bls.py for layout and for constructing invalid elements']
-    need = ['roundtrip:wparams|c/l0', 'roundtrip:wsk|c/l0', 'roundtrip:wsk|u/l9', 'roundtrip:wparams|u/l9', 'roundtrip:wct|', 'roundtrip:wsig|', 'roundtrip:wmaster|', 'roundtrip:lparams|', 'roundtrip:lid|',
+    need = ['slot-index|bits16', 'slot-index|bits32', 'roundtrip:wsk|c/l9/sig1/free9', 'roundtrip:wparams|c/l0', 'roundtrip:wsk|c/l0', 'roundtrip:wsk|u/l9', 'roundtrip:wparams|u/l9', 'roundtrip:wct|', 'roundtrip:wsig|', 'roundtrip:wmaster|', 'roundtrip:lparams|', 'roundtrip:lid|',
             'roundtrip:lmaster|', 'roundtrip:lsk|', 'roundtrip:lct|', 'corrupt:wparams|not-in-subgroup', 'corrupt:wsk|off-curve', 'corrupt:wct|', 'corrupt:lct|', 'corrupt:wsig|wrong-form']
     for r in need:
         if not any(k.startswith(r) for k in ctx.classes):
